@@ -294,6 +294,7 @@ float_case_impl!(float_f32_u8_8, f32, u8, 8, true);
 float_case_impl!(float_f32_u16_12, f32, u16, 12, true);
 float_case_impl!(float_f32_u16_16, f32, u16, 16, true);
 float_case_impl!(float_f32_u32_24, f32, u32, 24, false);
+float_case_impl!(float_f32_u32_28, f32, u32, 28, false);
 float_case_impl!(float_f32_u32_32, f32, u32, 32, false);
 float_case_impl!(float_f64_u8_2, f64, u8, 2, true);
 float_case_impl!(float_f64_u8_3, f64, u8, 3, true);
@@ -303,7 +304,7 @@ float_case_impl!(float_f64_u16_16, f64, u16, 16, true);
 float_case_impl!(float_f64_u32_24, f64, u32, 24, false);
 float_case_impl!(float_f64_u32_32, f64, u32, 32, false);
 
-pub const FLOAT_PARTS: [&str; 12] = ["f32/u8/4", "f32/u8/8", "f32/u16/12", "f32/u16/16", "f32/u32/24", "f32/u32/32",
+pub const FLOAT_PARTS: [&str; 13] = ["f32/u8/4", "f32/u8/8", "f32/u16/12", "f32/u16/16", "f32/u32/24", "f32/u32/28", "f32/u32/32",
     "f64/u8/3", "f64/u8/8", "f64/u16/12", "f64/u16/16", "f64/u32/24", "f64/u32/32"];
 
 /// Decodes case index -> (table over the alphabet of `nletters` letters with lengths 0..=maxlen, norm)
@@ -364,7 +365,7 @@ pub fn float_part_run(part: &str, from: u64, to: u64, want: &str, sink: &mut Chi
             macro_rules! go64 { ($f:ident) => {{ let t: Vec<f64> = letters.iter().map(|&k| a64[k]).collect(); $f(&t, norm, &mut c) }}; }
             match key.as_str() {
                 "f32/u8/4" => go32!(float_f32_u8_4), "f32/u8/8" => go32!(float_f32_u8_8), "f32/u16/12" => go32!(float_f32_u16_12),
-                "f32/u16/16" => go32!(float_f32_u16_16), "f32/u32/24" => go32!(float_f32_u32_24), "f32/u32/32" => go32!(float_f32_u32_32),
+                "f32/u16/16" => go32!(float_f32_u16_16), "f32/u32/24" => go32!(float_f32_u32_24), "f32/u32/28" => go32!(float_f32_u32_28), "f32/u32/32" => go32!(float_f32_u32_32),
                 "f64/u8/2" => go64!(float_f64_u8_2), "f64/u8/3" => go64!(float_f64_u8_3), "f64/u8/8" => go64!(float_f64_u8_8), "f64/u16/12" => go64!(float_f64_u16_12),
                 "f64/u16/16" => go64!(float_f64_u16_16), "f64/u32/24" => go64!(float_f64_u32_24), "f64/u32/32" => go64!(float_f64_u32_32),
                 other => panic!("HARNESS: unknown float part {other}"),
